@@ -123,7 +123,11 @@ func c16Render(rng *Rng, o c16Op, c *Case) string {
 		ms = save
 	}
 	if o.Buckets {
-		ms = append(ms, member{"buckets", PickOne(rng, []string{"[1,2,5]", "[ 1 , 2 , 5 ]", "[1.0,2e0,0.5e1]", "[1,\n2,\n5]"})})
+		if o.BucketsEmpty {
+			ms = append(ms, member{"buckets", PickOne(rng, []string{"[]", "[ ]", "[\n]"})})
+		} else {
+			ms = append(ms, member{"buckets", PickOne(rng, []string{"[1,2,5]", "[ 1 , 2 , 5 ]", "[1.0,2e0,0.5e1]", "[1,\n2,\n5]"})})
+		}
 	}
 	if o.Labels != nil {
 		var ks []string
